@@ -27,6 +27,7 @@ CLASS_SHAPE = {
     "version": re.compile(r"^\d+\.\d+(?:\.\d+)?(?:[-+][A-Za-z0-9.]+)?\Z"),
     "variable": re.compile(r"^\$[A-Za-z0-9_]+(?::[A-Za-z_]\w*)?\Z"),
     "expr": re.compile(r"^%s(?:[%s]%s)+\Z" % (_W, OPS, _W)),
+    "percent": re.compile(r"^-?\d+(?:\.\d+)?(?:[eE][+-]?\d+)?%(?:[A-Za-z_]\w*)?\Z"),
     "annotation_u": re.compile(r"^[^\W\d]\w*<[^\W\d]\w*>\Z"),
     "multiword_mixed": re.compile(
         r'^(?!(?:true|false|null|vs)\b)' + _W + r'(?: (?:(?!vs\b)' + _W + r'|42|3\.14|1\.2\.3|"[^"\\\n\t]*"))+\Z'),
@@ -282,6 +283,8 @@ class Lenient:
                 self.rewrites.append({"type": "repair_candidate", "original": f"{name}{{{qual}}}", "repaired": s,
                                       "line": line, "column": col})
                 return o.w(f"{name}{{{qual}}}")
+            return o.w(s)
+        if cls == "percent" and bare_ok():
             return o.w(s)
         if cls == "annotation_u" and self.curly and bare_ok() and self.take("curly_annotation_nonascii", 0.5):
             line, col = o.pos()
